@@ -20,6 +20,14 @@ def _j(v):
     return v
 
 
+def _vt(s):
+    import datetime
+    from harness import world as _w
+    if isinstance(s, str):
+        s = datetime.datetime.strptime(s.split('.')[0], '%Y-%m-%d %H:%M:%S')
+    return int((s - _w.BASE).total_seconds())
+
+
 def canon(v):
     return json.dumps(v, sort_keys=True, default=str)
 
@@ -113,7 +121,7 @@ def project(world=None):
         rc = _j(a[8]) or {}
         out_ax.append(dict(sid=sid, task=tk_sid[a[3]], idx=rc.get('index', 0), state=a[4], accepted=bool(a[5]),
                            out=canon(_j(a[6])), isSync=bool(a[9]), name=a[2],
-                           hb=(-1 if a[10] is None else 0)))
+                           hb=(-1 if a[10] is None else _vt(a[10]))))
     ids = dict(wf={v: k for k, v in wf_sid.items()}, tk={v: k for k, v in tk_sid.items()}, ax={v: k for k, v in ax_sid.items()},
                wf_rev=wf_sid, tk_rev=tk_sid, ax_rev=ax_sid)
     return dict(wf=out_wf, tk=out_tk, ax=out_ax), ids
